@@ -1,6 +1,6 @@
 (* C15 — Write tokens are bound to the requester IP and expire. Statements only. *)
 From MLV Require Import gen.Params model.Bytes model.Crc32c model.Sha1 model.Id model.Node model.BSearch model.Closest model.RTable
-  model.Lru model.Tokens model.Server proofs.ServerProofs proofs.TokenProofs.
+  model.Lru model.Tokens model.Server proofs.ServerProofs proofs.TokenProofs proofs.TokenForge.
 Open Scope N_scope.
 
 Example C15_rotation_interval_is_5_minutes : TOKEN_ROTATE_INTERVAL = 300000%Z.
@@ -50,6 +50,28 @@ Theorem C15_token_expiry_after_two_rotations : forall t (e1 e2 : Z * bytes),
   t_curr t2 = snd e2 /\ t_prev t2 = snd e1.
 Proof. exact token_expiry. Qed.
 
+(* ---- known finding F26: "only from the IP address it was issued to" does not hold against a requester who
+   computes.  CRC-32C is affine, so under any secret of the same length the tokens of two addresses differ by
+   the same constant; from a token issued to [ip] the token of [ip'] follows with no knowledge of the secret,
+   and the node accepts it from [ip'] although it never issued it. ---- *)
+Theorem C15_F26_token_difference_secret_free : forall s1 s2 ip ip', length s1 = length s2 ->
+  N.lxor (crc32c (N_to_be 4 ip ++ s1)) (crc32c (N_to_be 4 ip' ++ s1)) =
+  N.lxor (crc32c (N_to_be 4 ip ++ s2)) (crc32c (N_to_be 4 ip' ++ s2)).
+Proof. exact token_difference_secret_free. Qed.
+
+Theorem C15_F26_derived_token_accepted : forall t ip ip',
+  wf_bytes (t_curr t) = true -> length (t_curr t) = 20%nat ->
+  tok_validate t ip' (tok_derive ip ip' (tok_generate t ip)) = true.
+Proof. exact derived_token_validates. Qed.
+
+(* non-vacuous: 5.6.7.8 -> 5.6.7.9 under a concrete secret; the derived token differs from the issued one *)
+Example C15_F26_witness :
+  let t := {| t_prev := sm_bytes 20 1; t_curr := sm_bytes 20 2; t_updated := 0%Z |} in
+  let tok := tok_generate t 0x05060708 in
+  let forged := tok_derive 0x05060708 0x05060709 tok in
+  tok_validate t 0x05060709 tok = false /\ bytes_eqb forged tok = false /\ tok_validate t 0x05060709 forged = true.
+Proof. vm_compute. repeat split. Qed.
+
 Print Assumptions C15_rotation_interval_is_5_minutes.
 Print Assumptions C15_token_injective_in_ip.
 Print Assumptions C15_token_bound_to_ip.
@@ -58,3 +80,6 @@ Print Assumptions C15_bad_token_203.
 Print Assumptions C15_token_min_lifetime.
 Print Assumptions C15_rotation_spacing.
 Print Assumptions C15_token_expiry_after_two_rotations.
+Print Assumptions C15_F26_token_difference_secret_free.
+Print Assumptions C15_F26_derived_token_accepted.
+Print Assumptions C15_F26_witness.
